@@ -156,6 +156,7 @@ func worker(results chan<- result, files <-chan string, wg *sync.WaitGroup) {
 		f, err := os.Open(file)
 		if err != nil {
 			res.err = err
+			verifhook.At("worker.send", "file", file)
 			results <- res
 			continue
 		}
